@@ -146,6 +146,21 @@ Theorem C20_utf8_definition : forall l,
   valid l = true <-> exists cs, Forall (fun c => scalar c = true) cs /\ l = encode_scalars cs.
 Proof. exact valid_iff_scalars. Qed.
 
+(* What the common order is: comparing two valid strings bytewise is comparing their sequences of
+   scalar values (code points) lexicographically — the second half of Rust's documentation of
+   `impl Ord for str`.  `bytes_cmp cs ds` on the right compares lists of code points. *)
+Theorem C20_order_is_code_point_order : forall x y, valid x = true -> valid y = true ->
+  exists cs ds, Forall (fun c => scalar c = true) cs /\ Forall (fun c => scalar c = true) ds /\
+                x = encode_scalars cs /\ y = encode_scalars ds /\
+                cmp x y = bytes_cmp cs ds /\ str_cmp (deref x) (deref y) = bytes_cmp cs ds.
+Proof. exact cmp_code_points. Qed.
+
+(* ... and the decoding is unique, so "the" sequence of code points of a ByteString exists. *)
+Theorem C20_decode_unique : forall cs ds,
+  Forall (fun c => scalar c = true) cs -> Forall (fun c => scalar c = true) ds ->
+  encode_scalars cs = encode_scalars ds -> cs = ds.
+Proof. exact encode_scalars_inj. Qed.
+
 (* ---- non-vacuity ---- *)
 (* "Aé€" split at 3 (between é and €); 1, 2, 4, 5 are inside sequences and 7 is past the end *)
 Example C20_split_example :
@@ -190,6 +205,12 @@ Example C20_invariant_example :
      Made [[226; 130; 172]]; Made [[]]; Made [[195; 169]]; Error].
 Proof. vm_compute. split; reflexivity. Qed.
 
+(* U+FFFF < U+10000 although ef > f0 is false: ef bf bf < f0 90 80 80 bytewise as well *)
+Example C20_order_example :
+  cmp (encode_scalars [65; 65535]) (encode_scalars [65; 65536]) = Lt /\
+  bytes_cmp [65; 65535] [65; 65536] = Lt /\ cmp (encode_scalars [233]) (encode_scalars [122]) = Gt.
+Proof. vm_compute. repeat split. Qed.
+
 Example C20_agree_example :
   cmp [65] [65; 195; 169] = Lt /\ cmp [195; 169] [90] = Gt /\ eq [195; 169] [195; 169] = true /\
   hash_input [195; 169] = [195; 169; 255].
@@ -218,3 +239,5 @@ Print Assumptions C20_cmp_trans.
 Print Assumptions C20_hash_prefix_free.
 Print Assumptions C20_valid_app.
 Print Assumptions C20_utf8_definition.
+Print Assumptions C20_order_is_code_point_order.
+Print Assumptions C20_decode_unique.
